@@ -104,9 +104,27 @@ PORTFOLIO = [
 ]
 
 
+def _conjuncts(f, out):
+    if z3.is_and(f):
+        for c in f.children():
+            _conjuncts(c, out)
+    else:
+        out.append(f)
+    return out
+
+
 def prove(pc, goal, use_cvc5=True, timeout_ms=None):
     """Is `goal` a consequence of the path condition `pc`?"""
     t0 = time.time()
+    # syntactic shortcut: every conjunct of the goal is literally one of the hypotheses (an invariant
+    # that a frame leaves untouched is the *same* term thanks to deterministic bound names)
+    have = set()
+    for p in pc:
+        for c in _conjuncts(p, []):
+            have.add(c.get_id())
+    if all(c.get_id() in have for c in _conjuncts(goal, [])):
+        STATS["syntactic"] = STATS.get("syntactic", 0) + 1
+        return Result("proved", "syntactic", time.time() - t0)
     budget = timeout_ms or Z3_TIMEOUT_MS
     reason = ""
     last = None
